@@ -44,7 +44,7 @@ LEVEL_NOTE = ('trusted: Lean kernel + standard axioms; correspondence harness; h
               'lattice model of C01 / C17: rotated_toric3D_lattice_is_the_C01_model); signs are modelled as 0/1 values; the numpy generator behind get_default_direction is an '
               'input stream; `code.id == RotatedToric3DCode` is the Boolean field rotSeam of the lattice record. '
               'The seam repair of RotatedSweepDecoder3D is pending as a commit of the library (known_findings: '
-              'fixed PENDING); the former finding D10 is kept as a regression corpus of the oracle that must pass.')
+              'fixed ff6f655); the former finding D10 is kept as a regression corpus of the oracle that must pass.')
 TECHNIQUE = ('Lean 4 proof (induction over automaton steps from a one-step toggle lemma; coordinate arithmetic '
              'with omega for the all-sizes geometry) + differential correspondence with the compiled model driver')
 TRUSTED = ['numpy Generator.choice behind get_default_direction is modelled as an arbitrary stream of values in '
